@@ -31,6 +31,7 @@ pub fn def() -> PropDef {
 
 pub const OPS: &[&str] = &[
     "parse-str", "parse-slice", "parse-reader", "datum-reader", "datum-slice",
+    "parse-dotted-pair-notation", "datum-dotted-pair-notation",
     "print-to_string", "print-to_writer", "print-display", "print-elisp",
     "value-to_vec", "cons-to_vec", "cons-to_ref_vec", "cons-into_vec",
     "cons-iter", "list_iter", "into_iter",
@@ -111,6 +112,19 @@ fn datum_of(text: &str) -> Datum {
 fn build(op: &str, n: usize, dotted: bool) -> Built {
     match op {
         "parse-str" | "parse-slice" | "parse-reader" | "datum-reader" | "datum-slice" => Built::Text(list_text(n, dotted)),
+        // the same flat list written cell by cell, (1 . (1 . (... ()))): nesting in the
+        // text, not in the value; must be parsed in bounded stack or refused
+        "parse-dotted-pair-notation" | "datum-dotted-pair-notation" => {
+            let mut s = String::with_capacity(n * 7 + 2);
+            for _ in 0..n {
+                s.push_str("(1 . ");
+            }
+            s.push_str(if dotted { "t" } else { "()" });
+            for _ in 0..n {
+                s.push(')');
+            }
+            Built::Text(s)
+        }
         // a Vec<u32> is a proper list
         "serde-from_str" => Built::Text(list_text(n, false)),
         "eq" => Built::Val2(build_value(n, dotted), build_value(n, dotted)),
@@ -169,6 +183,28 @@ fn run_op(op: &str, b: Built, n: usize) -> String {
             forget(lexpr::datum::from_slice(t.as_bytes()).expect("parse"));
             forget(t);
             "parsed".into()
+        }
+        ("parse-dotted-pair-notation", Built::Text(t)) => {
+            let r = match lexpr::from_reader(Cursor::new(t.as_bytes())) {
+                Ok(v) => {
+                    forget(v);
+                    "parsed".to_string()
+                }
+                Err(e) => format!("refused: {}", crate::props::common::err_kind(&e)),
+            };
+            forget(t);
+            r
+        }
+        ("datum-dotted-pair-notation", Built::Text(t)) => {
+            let r = match lexpr::datum::from_str(&t) {
+                Ok(v) => {
+                    forget(v);
+                    "parsed".to_string()
+                }
+                Err(e) => format!("refused: {}", crate::props::common::err_kind(&e)),
+            };
+            forget(t);
+            r
         }
         ("print-to_string", Built::Val(v)) => {
             let s = lexpr::to_string(&v).unwrap();
